@@ -337,9 +337,9 @@ impl KmerMinHash {
         // empty mins? add it.
         if self.mins.is_empty() {
             self.mins.push(hash);
+            self.reset_md5sum();
             if let Some(ref mut abunds) = self.abunds {
                 abunds.push(abundance);
-                self.reset_md5sum();
             }
             return;
         }
